@@ -40,7 +40,7 @@ FILTERS = ['none', 'pass', 'edit', 'reject', 'mut']
 
 def configs(tier):
     out = []
-    for sender in ('sb', 'input'):
+    for sender in ('sb', 'input', 'counter'):
         for k in range(4):
             for m in range(4):
                 for style in ('tuple', 'list', 'single'):
@@ -68,6 +68,9 @@ def configs(tier):
                         out.append(dict(sender=sender, k=k, m=0, style=style, pat=pat,
                                         shared=shared))
     return out
+
+
+SSENDERS = ('sb', 'input', 'counter')      # sequential senders (have on_every_output)
 
 
 def filt_kind(cfg, idx):
@@ -143,8 +146,8 @@ def expected(cfg, prev, v, name):
             d = apply_ref(filt_kind(cfg, i), base)
             if d is not None:
                 out.append((f"o{i}", canon_data(d)))
-    if cfg['sender'] in ('sb', 'input') or changed:
-        if cfg['sender'] in ('sb', 'input'):
+    if cfg['sender'] in SSENDERS or changed:
+        if cfg['sender'] in SSENDERS:
             for j in range(m):
                 d = apply_ref(filt_kind(cfg, k + j), base)
                 if d is not None:
@@ -186,6 +189,12 @@ def run_history(cfg, hist):
             if on_every is not None:
                 kw['on_every_output'] = on_every
             blk = edzed.Input('snd', initdef=first, **kw)
+            ext = edzed.ExtEvent(blk, 'put')
+        elif sender == 'counter':
+            # without a modulus a Counter's 'put' assigns any value
+            if on_every is not None:
+                kw['on_every_output'] = on_every
+            blk = edzed.Counter('snd', initdef=first, **kw)
             ext = edzed.ExtEvent(blk, 'put')
         else:
             if sender == 'func':
@@ -229,7 +238,7 @@ def run_history(cfg, hist):
                     await sim.loop.idle()
                     got = deliveries(n0)
                 info['steps'].append((repr(V[vi]), [e for e, _ in got]))
-                if sender in ('sb', 'input') and got_sync != got:
+                if sender in SSENDERS and got_sync != got:
                     info['viol'].append(('not-synchronous',
                                          f"assign {V[vi]!r}: {len(got_sync)} of {len(got)} deliveries before the assignment returned"))
                 if got != exp:
